@@ -7,6 +7,8 @@ import (
 	"github.com/pkg/errors"
 
 	cmtrpctypes "github.com/cometbft/cometbft/rpc/core/types"
+
+	"github.com/EscanBE/evermint/v12/utils/verifhook"
 )
 
 type UnsubscribeFunc func()
@@ -42,6 +44,7 @@ func (m *memEventBus) GenUniqueID() uint64 {
 func (m *memEventBus) Topics() (topics []string) {
 	m.topicsMux.RLock()
 	defer m.topicsMux.RUnlock()
+	verifhook.At("bus", "topics")
 
 	topics = make([]string, 0, len(m.topics))
 	for topicName := range m.topics {
@@ -54,6 +57,7 @@ func (m *memEventBus) Topics() (topics []string) {
 func (m *memEventBus) AddTopic(name string, src <-chan cmtrpctypes.ResultEvent) error {
 	m.topicsMux.RLock()
 	_, ok := m.topics[name]
+	verifhook.At("bus", "addTopic.check", name, ok)
 	m.topicsMux.RUnlock()
 
 	if ok {
@@ -62,6 +66,7 @@ func (m *memEventBus) AddTopic(name string, src <-chan cmtrpctypes.ResultEvent) 
 
 	m.topicsMux.Lock()
 	m.topics[name] = src
+	verifhook.At("bus", "addTopic.add", name, src)
 	m.topicsMux.Unlock()
 
 	go m.publishTopic(name, src)
@@ -71,6 +76,7 @@ func (m *memEventBus) AddTopic(name string, src <-chan cmtrpctypes.ResultEvent) 
 
 func (m *memEventBus) RemoveTopic(name string) {
 	m.topicsMux.Lock()
+	verifhook.At("bus", "removeTopic", name)
 	delete(m.topics, name)
 	m.topicsMux.Unlock()
 }
@@ -78,6 +84,7 @@ func (m *memEventBus) RemoveTopic(name string) {
 func (m *memEventBus) Subscribe(name string) (<-chan cmtrpctypes.ResultEvent, UnsubscribeFunc, error) {
 	m.topicsMux.RLock()
 	_, ok := m.topics[name]
+	verifhook.At("bus", "subscribe.check", name, ok)
 	m.topicsMux.RUnlock()
 
 	if !ok {
@@ -93,10 +100,12 @@ func (m *memEventBus) Subscribe(name string) (<-chan cmtrpctypes.ResultEvent, Un
 		m.subscribers[name] = make(map[uint64]chan<- cmtrpctypes.ResultEvent)
 	}
 	m.subscribers[name][id] = ch
+	verifhook.At("bus", "subscribe.add", name, id)
 
 	unsubscribe := func() {
 		m.subscribersMux.Lock()
 		defer m.subscribersMux.Unlock()
+		verifhook.At("bus", "unsubscribe", name, id)
 		delete(m.subscribers[name], id)
 	}
 
@@ -106,9 +115,11 @@ func (m *memEventBus) Subscribe(name string) (<-chan cmtrpctypes.ResultEvent, Un
 func (m *memEventBus) publishTopic(name string, src <-chan cmtrpctypes.ResultEvent) {
 	for {
 		msg, ok := <-src
+		verifhook.At("publishTopic", "recv", name, src, ok)
 		if !ok {
 			m.closeAllSubscribers(name)
 			m.topicsMux.Lock()
+			verifhook.At("bus", "delTopic", name, src)
 			delete(m.topics, name)
 			m.topicsMux.Unlock()
 			return
@@ -120,6 +131,7 @@ func (m *memEventBus) publishTopic(name string, src <-chan cmtrpctypes.ResultEve
 func (m *memEventBus) closeAllSubscribers(name string) {
 	m.subscribersMux.Lock()
 	defer m.subscribersMux.Unlock()
+	verifhook.At("bus", "closeAll", name)
 
 	subscribers := m.subscribers[name]
 	delete(m.subscribers, name)
@@ -132,6 +144,7 @@ func (m *memEventBus) closeAllSubscribers(name string) {
 func (m *memEventBus) publishAllSubscribers(name string, msg cmtrpctypes.ResultEvent) {
 	m.subscribersMux.RLock()
 	defer m.subscribersMux.RUnlock()
+	verifhook.At("bus", "publish", name)
 
 	subscribers := m.subscribers[name]
 	// #nosec G705
